@@ -27,6 +27,10 @@ var fieldFactTable = []fieldFactSpec{
 		reason: "statuscode patterns with cycle <= 0 are rejected while parsing (C14d)"},
 	{field: "app.SegStatusCodes.Rsq", lo: 0, hi: posInf, pkg: pkgApp, establisher: "(*strConvAccErr).ParseSegStatusCodes", kind: "accerr",
 		reason: "negative rsq rejected while parsing (C14d)"},
+	{field: "app.ResponseConfig.PeriodsPerHour*", lo: 1, hi: 3600, pkg: pkgApp, establisher: "verifyAndFillConfig", kind: "errret",
+		reason: "periods per hour outside 1..3600 are rejected before the configuration is handed out (C06c)"},
+	{field: "app.ResponseConfig.TimeSubsDurMS", lo: 1, hi: posInf, pkg: pkgApp, establisher: "verifyAndFillConfig", kind: "errret",
+		reason: "cue duration <= 0 is rejected before the configuration is handed out (C12 fault clause)"},
 	{field: "app.SegStatusCodes.Code", lo: 400, hi: 599, pkg: pkgApp, establisher: "(*strConvAccErr).ParseSegStatusCodes", kind: "accerr",
 		reason: "codes outside 400-599 rejected while parsing (C14d)"},
 }
@@ -68,6 +72,7 @@ func fieldStores(p *Program, field string) []*ssa.Store {
 func buildFieldFacts(p *Program, r *Reporter, needed map[string]bool) *fieldFacts {
 	ff := &fieldFacts{p: p, ranges: map[string]itv{}}
 	accErrProtocolOK, why := verifyAccErrProtocol(p)
+	errRetProtocolOK, why2 := verifyErrRetProtocol(p)
 	for _, spec := range fieldFactTable {
 		if needed != nil && !needed[spec.field] {
 			continue
@@ -81,7 +86,21 @@ func buildFieldFacts(p *Program, r *Reporter, needed map[string]bool) *fieldFact
 		if ok && spec.kind == "accerr" && !accErrProtocolOK {
 			ok, msg = false, "accumulated-error protocol premise failed: "+why
 		}
-		if ok {
+		if ok && spec.kind == "errret" && !errRetProtocolOK {
+			ok, msg = false, "verify-before-return protocol premise failed: "+why2
+		}
+		if ok && spec.kind == "errret" {
+			// the field may be stored by the URL parser (which runs before the validation) and by the
+			// constructor of the default configuration only
+			base := strings.TrimSuffix(spec.field, "*")
+			allowed := p.reachableFrom(p.lookupFunc(pkgApp, "processURLCfg"))
+			for _, st := range fieldStores(p, base) {
+				if !allowed[st.Parent()] {
+					ok, msg = false, "field is also stored in "+shortFn(st.Parent())+" at "+p.pos(st.Pos())+", which does not pass through the validation"
+				}
+			}
+		}
+		if ok && spec.kind != "errret" {
 			// every store to the field is inside the establisher
 			for _, st := range fieldStores(p, spec.field) {
 				if st.Parent() != fn {
@@ -291,4 +310,51 @@ func verifyAccErrProtocol(p *Program) (bool, string) {
 		return false, "processURLCfg has no return of a config"
 	}
 	return true, "every config-returning exit of processURLCfg is dominated by sc.err == nil"
+}
+
+// verifyErrRetProtocol: processURLCfg calls verifyAndFillConfig on the config it
+// returns and every successful return (nil error) is dominated by the test that
+// the validation returned nil.
+func verifyErrRetProtocol(p *Program) (bool, string) {
+	fn := p.lookupFunc(pkgApp, "processURLCfg")
+	vf := p.lookupFunc(pkgApp, "verifyAndFillConfig")
+	if fn == nil || vf == nil {
+		return false, "processURLCfg / verifyAndFillConfig not found"
+	}
+	var call *ssa.Call
+	for _, b := range fn.Blocks {
+		for _, in := range b.Instrs {
+			if c, ok := in.(*ssa.Call); ok && c.Call.StaticCallee() == vf {
+				call = c
+			}
+		}
+	}
+	if call == nil {
+		return false, "processURLCfg does not call verifyAndFillConfig"
+	}
+	f := factsOf(fn)
+	n := 0
+	for _, b := range fn.Blocks {
+		ret, ok := b.Instrs[len(b.Instrs)-1].(*ssa.Return)
+		if !ok || len(ret.Results) != 2 || !isNilConst(ret.Results[1]) {
+			continue
+		}
+		n++
+		if !sameValue(ret.Results[0], call.Call.Args[0]) {
+			return false, "successful return at " + p.pos(ret.Pos()) + " returns a different config than the validated one"
+		}
+		guarded := false
+		for _, c := range f.dominatingConds(b) {
+			if is, nonNilOnTrue := nilTest(c.V, call); is && c.Pos != nonNilOnTrue {
+				guarded = true
+			}
+		}
+		if !guarded {
+			return false, "successful return at " + p.pos(ret.Pos()) + " is not dominated by the test that verifyAndFillConfig returned nil"
+		}
+	}
+	if n == 0 {
+		return false, "processURLCfg has no successful return"
+	}
+	return true, "every successful return of processURLCfg is dominated by verifyAndFillConfig(cfg) == nil"
 }
